@@ -228,6 +228,15 @@ where
     total
 }
 
+/// Run a per-case check: a panic that escapes from the library through a call that is not individually guarded is
+/// a violation of that case (with the panic message), never a crash of the explorer.
+pub fn guard_case<T>(f: impl FnOnce() -> Result<T, String>) -> Result<T, String> {
+    match guarded(f) {
+        Ok(r) => r,
+        Err(p) => Err(format!("panic: {}", p)),
+    }
+}
+
 /// Call into the library, turning a panic into `Err(message)`.
 pub fn guarded<T>(f: impl FnOnce() -> T) -> Result<T, String> {
     match catch_unwind(AssertUnwindSafe(f)) {
